@@ -1,11 +1,13 @@
 #!/bin/bash
-# collect_seed.sh <property id>: copies /tmp/seed_<id>/seed_out/{1,2} into /verif/seeded/<id>_<n>/ with a meta.json skeleton
+# collect_seed.sh <property id> [offset]: copies /tmp/seed_<id>/seed_out/{1,2} into /verif/seeded/<id>_<n>/ with a meta.json skeleton
 set -e
 id=$1
+off=${2:-0}
 for n in 1 2 3; do
   src=/tmp/seed_$id/seed_out/$n
   [ -d "$src" ] || continue
-  dst=/verif/seeded/${id}_$n
+  dst=/verif/seeded/${id}_$((n+off))
+  if [ -e "$dst" ]; then echo "$dst exists - pass an offset as second argument"; exit 1; fi
   mkdir -p $dst
   cp $src/patch.diff $dst/patch.diff
   [ -f $src/demo.c ] && cp $src/demo.c $dst/demo.c
